@@ -40,3 +40,18 @@ package shape
 //@   call e, err2 := ConvertSpatialIdsToExtendedSpatialIds(b)
 //@   assert err2 == nil && len(e) == len(l) && (forall k :: 0 <= k && k < len(l) ==> (fld(l[k], 0) == fld(l[k], 3) ==> e[k] == l[k]))
 //@ end
+
+//@ -- C01: vertical index = floor(alt * 2^v / 2^25), exact under IEEE semantics (power-of-two scalings only)
+//@ func getVerticalTileIdOnAltitude
+//@   pure
+//@   props C01 C09 C17 C15
+//@   nooverflow
+//@   ensures [shape] nf(r0) == 2 && fld(r0, 0) == num(vZoom)
+//@ end
+//@ -- documented domain |alt| <= 2^25; altitudes so close to zero that alt/2^(25-v) underflows are excluded
+//@ -- (known finding: a negative subnormal altitude is mapped to index 0 instead of -1)
+//@ case getVerticalTileIdOnAltitude in-domain
+//@   split vZoom 0..35
+//@   requires abs(alt) <= 33554432.0 && (alt == 0.0 || abs(alt) >= 1e-290)
+//@   ensures [floor] r0 == vid(vZoom, floor(alt * rpow2(vZoom) / rpow2(25)))
+//@ end
